@@ -1,6 +1,279 @@
 package main
 
-import "math/rand"
+// Plan_Multi.tla: inputs with several offenders of the same kind (C05), and the KeyUsage rule family.
+import (
+	"encoding/json"
+	"fmt"
+	"math/rand"
+	"os"
+	"strings"
 
-// forgedMultiOffenders is replaced by Plan_Multi (duplicate-and-vary edits); empty until then.
-func forgedMultiOffenders(rng *rand.Rand) []*Target { return nil }
+	"github.com/zmap/zcrypto/x509"
+	"github.com/zmap/zlint/v3/lint"
+	"verif/harness/internal/corpus"
+	"verif/harness/internal/ev"
+	"verif/harness/internal/forge"
+)
+
+type kuekuRecipe struct {
+	Ku   []int    `json:"ku"`
+	Ekus []string `json:"ekus"`
+	Ok   bool     `json:"ok"`
+}
+
+type multiPlan struct {
+	KuEku  []kuekuRecipe `json:"kueku"`
+	Others []struct {
+		R string `json:"r"`
+		N int    `json:"n"`
+	} `json:"others"`
+}
+
+func loadMultiPlan() *multiPlan {
+	p := os.Getenv("VERIF_MULTI")
+	if p == "" {
+		return nil
+	}
+	var pl multiPlan
+	readExport(p, func(inner string) { json.Unmarshal([]byte(inner), &pl) })
+	if len(pl.KuEku) == 0 {
+		return nil
+	}
+	return &pl
+}
+
+var ekuOID = map[string][]int{
+	"serverAuth": {1, 3, 6, 1, 5, 5, 7, 3, 1}, "clientAuth": {1, 3, 6, 1, 5, 5, 7, 3, 2}, "codeSigning": {1, 3, 6, 1, 5, 5, 7, 3, 3},
+	"emailProtection": {1, 3, 6, 1, 5, 5, 7, 3, 4}, "timeStamping": {1, 3, 6, 1, 5, 5, 7, 3, 8}, "OCSPSigning": {1, 3, 6, 1, 5, 5, 7, 3, 9},
+	"anyOther": {1, 3, 6, 1, 5, 5, 7, 3, 5}, // ipsecEndSystem: known to the parser, not in the lint's table
+}
+
+func kuBitString(bits []int) []byte {
+	var b [2]byte
+	max := -1
+	for _, k := range bits {
+		b[k/8] |= 0x80 >> uint(k%8)
+		if k > max {
+			max = k
+		}
+	}
+	n := max/8 + 1
+	unused := 7 - max%8
+	return forge.Prim(0x03, append([]byte{byte(unused)}, b[:n]...)).Bytes()
+}
+
+func plantKuEku(base *forge.Cert, r kuekuRecipe) []byte {
+	c := base.Clone()
+	c.SetExt("2.5.29.15", forge.MakeExt(forge.OID(2, 5, 29, 15), true, kuBitString(r.Ku)))
+	var oids []*forge.Node
+	for _, e := range r.Ekus {
+		oids = append(oids, forge.OID(ekuOID[e]...))
+	}
+	c.SetExt("2.5.29.37", forge.MakeExt(forge.OID(2, 5, 29, 37), false, forge.Cons(0x10, oids...).Bytes()))
+	return c.Bytes()
+}
+
+// kuekuTemplates: subscriber certificates carrying both extensions on which the consistency lint applies.
+func kuekuTemplates(c *corpus.Corpus, want int) []*corpus.Obj {
+	var out []*corpus.Obj
+	g := lint.GlobalRegistry()
+	l := g.CertificateLints().ByName("e_key_usage_and_extended_key_usage_inconsistent")
+	if l == nil {
+		return nil
+	}
+	for _, o := range c.Certs {
+		if len(o.Cert.ExtKeyUsage) == 0 || o.Cert.KeyUsage == 0 || o.Cert.IsCA {
+			continue
+		}
+		if inst := l.Lint(); !inst.CheckApplies(o.Cert) {
+			continue
+		}
+		if _, err := forge.ParseCert(o.DER); err != nil {
+			continue
+		}
+		out = append(out, o)
+		if len(out) == want {
+			break
+		}
+	}
+	return out
+}
+
+func kuekuID(tpl string, r kuekuRecipe) string {
+	return fmt.Sprintf("forged:kueku:%s:ku=%v:ekus=%s", tpl, r.Ku, strings.Join(r.Ekus, "+"))
+}
+
+func varyFirst(s string) string {
+	if s == "" {
+		return s
+	}
+	repl := byte('a')
+	if s[0] == 'a' {
+		repl = 'b'
+	}
+	return string(repl) + s[1:]
+}
+
+func varyN(s string, k int) string {
+	// k-th variant of a label: replace its first character by the k-th letter that differs from it
+	letters := "abcdefghijklmnopqrstuvwxyz234567"
+	n := 0
+	for i := 0; i < len(letters); i++ {
+		if s != "" && letters[i] != s[0] {
+			n++
+			if n == k {
+				return string(letters[i]) + s[1:]
+			}
+		}
+	}
+	return s
+}
+
+// forgedMultiOffenders: the recipes of Plan_Multi applied to corpus templates.
+func forgedMultiOffenders(rng *rand.Rand) []*Target {
+	pl := loadMultiPlan()
+	if pl == nil {
+		return nil
+	}
+	c := corpus.Load()
+	var out []*Target
+	add := func(id string, der []byte) {
+		if cert, ok, _ := corpus.ParseCert(der); ok {
+			out = append(out, &Target{Kind: "cert", ID: id, DER: der, Cert: cert})
+		}
+	}
+	// ---- kueku
+	for _, tpl := range kuekuTemplates(c, 1) {
+		base, _ := forge.ParseCert(tpl.DER)
+		for _, r := range pl.KuEku {
+			if len(r.Ekus) < 2 {
+				continue // one purpose: no merging, nothing order-dependent (the rule family check covers it)
+			}
+			add(kuekuID(tpl.ID, r), plantKuEku(base, r))
+		}
+	}
+	// ---- the generic duplicate-and-vary recipes
+	stride := 6
+	if tier == "thorough" {
+		stride = 1
+	}
+	for ci, o := range c.Certs {
+		onion := false
+		for _, n := range o.Cert.DNSNames {
+			if strings.HasSuffix(n, ".onion") {
+				onion = true
+			}
+		}
+		if !onion && ci%stride != int(seed)%stride {
+			continue
+		}
+		base, err := forge.ParseCert(o.DER)
+		if err != nil {
+			continue
+		}
+		for _, rc := range pl.Others {
+			switch rc.R {
+			case "san-vary":
+				names := base.NamesOfExt("2.5.29.17")
+				var dns *forge.Node
+				for _, n := range names {
+					if n.Tag() == 0x82 && strings.Count(string(n.Body()), ".") >= 1 {
+						dns = n
+						break
+					}
+				}
+				if dns == nil {
+					continue
+				}
+				labels := strings.Split(string(dns.Body()), ".")
+				cc := base.Clone()
+				nn := cc.NamesOfExt("2.5.29.17")
+				for k := 1; k <= rc.N; k++ {
+					l2 := append([]string{}, labels...)
+					l2[len(l2)-2] = varyN(l2[len(l2)-2], k)
+					nn = append(nn, forge.GN(0x82, []byte(strings.Join(l2, "."))))
+				}
+				ext := cc.FindExt("2.5.29.17")
+				forge.SetGeneralNames(ext, forge.GeneralNames(nn...))
+				add(fmt.Sprintf("forged:san-vary%d:%s", rc.N, o.ID), cc.Bytes())
+			case "dup-ext":
+				exts := base.Exts()
+				if exts == nil || len(exts.Children) < rc.N {
+					continue
+				}
+				cc := base.Clone()
+				e2 := cc.Exts()
+				for _, j := range rng.Perm(len(exts.Children))[:rc.N] {
+					e2.Children = append(e2.Children, exts.Children[j].Clone())
+				}
+				add(fmt.Sprintf("forged:dup-ext%d:%s", rc.N, o.ID), cc.Bytes())
+			case "rdn-vary":
+				subj := base.Subject()
+				if len(subj.Children) == 0 {
+					continue
+				}
+				cc := base.Clone()
+				s2 := cc.Subject()
+				for k := 1; k <= rc.N; k++ {
+					src := subj.Children[rng.Intn(len(subj.Children))].Clone()
+					if len(src.Children) > 0 && len(src.Children[0].Children) == 2 && !src.Children[0].Children[1].Constructed() {
+						v := src.Children[0].Children[1]
+						src.Children[0].Children[1] = forge.Prim(v.Tag(), []byte(varyN(string(v.Body()), k)))
+					}
+					s2.Children = append(s2.Children, src)
+				}
+				add(fmt.Sprintf("forged:rdn-vary%d:%s", rc.N, o.ID), cc.Bytes())
+			}
+		}
+	}
+	return out
+}
+
+// cmdKuEku: the KeyUsage rule family as a fidelity oracle - every (key usage, purposes) of the plan on a subscriber
+// template, judged by the real lint; Trace_KeyUsage recomputes KeyUsage!Consistent.
+func cmdKuEku(args []string) {
+	parseFlags(args)
+	pl := loadMultiPlan()
+	if pl == nil {
+		fmt.Fprintln(os.Stderr, "no plan in VERIF_MULTI")
+		os.Exit(2)
+	}
+	c := corpus.Load()
+	w := ev.Create(out("kueku.ndjson"))
+	defer w.Close()
+	g := lint.GlobalRegistry()
+	l := g.CertificateLints().ByName("e_key_usage_and_extended_key_usage_inconsistent")
+	n, tpls := 0, kuekuTemplates(c, 3)
+	for _, tpl := range tpls {
+		base, _ := forge.ParseCert(tpl.DER)
+		for _, r := range pl.KuEku {
+			der := plantKuEku(base, r)
+			cert, ok, _ := corpus.ParseCert(der)
+			if !ok {
+				continue
+			}
+			sts := map[int]bool{}
+			for k := 0; k < 12; k++ {
+				res := l.Execute(cert, g.GetConfiguration())
+				sts[int(res.Status)] = true
+			}
+			var sl []int
+			for s := range sts {
+				sl = append(sl, s)
+			}
+			w.Emit(ev.M{"ev": "KuEku", "tpl": tpl.ID, "ku": r.Ku, "ekus": r.Ekus, "st": sl, "nEku": len(cert.ExtKeyUsage), "kuParsed": kuBitsOf(cert)})
+			n++
+		}
+	}
+	ev.WriteJSON(out("summary.json"), ev.M{"events": n, "templates": len(tpls)})
+}
+
+func kuBitsOf(c *x509.Certificate) []int {
+	out := []int{}
+	for b := 0; b < 9; b++ {
+		if int(c.KeyUsage)&(1<<uint(b)) != 0 {
+			out = append(out, b)
+		}
+	}
+	return out
+}
